@@ -138,7 +138,7 @@ fn lists_with_first(n: usize, first: Option<usize>, out: &mut dyn FnMut(Vec<PIte
 
 /// Compare the interpreter with the reference on a session: stored program,
 /// direct lines (each a statement list), replies.
-fn judge_session(site: &str, prog: &Prog, direct: &[Vec<Stmt>], replies: &[&str], ctx: &mut Ctx) {
+pub fn judge_session(site: &str, prog: &Prog, direct: &[Vec<Stmt>], replies: &[&str], ctx: &mut Ctx) {
     let mut desc = prog.render().join(" / ");
     for d in direct {
         desc.push_str(" // ");
